@@ -99,6 +99,13 @@ def run(ctx):
         sets = [a for a in fx.find(domain="sync", target="strobe_all") if a.v == "1"]
         ctx.ob("S3", STREAM, cls, "strobe_all set:present", bool(sets), "strobe_all is never set", 0)
         for a in sets:
+            # a word that completes is presented even when the previous word is handed over in the same cycle: the set is not
+            # overridden by the clear (written guard = effective guard)
+            ok = B.equivalent(a.eff(), B.guard_formula(a.guards))
+            ctx.ob("S3", STREAM, cls, "strobe_all set wins over its clear", ok,
+                   "" if ok else f"strobe_all <= 1 under {B.show(B.guard_formula(a.guards))} takes effect only under {B.show(a.eff())}: a word "
+                                 f"completed in the cycle the previous one leaves is never presented (token lost, its last marker sticks to the "
+                                 f"next word)", a.line)
             G = q.gformula(fx, a)
             for at in ("self.sink.last", "self.sink.valid"):
                 ok = B.depends_on(G, at)
